@@ -53,11 +53,13 @@ def confirm(a):
     clean = tempfile.mkdtemp(prefix="seeded-clean-", dir="/tmp")
     shutil.copytree("/repo/scoda", os.path.join(clean, "scoda"), ignore=shutil.ignore_patterns("__pycache__"))
     env["PYTHONPATH"] = clean
-    rc0, out0 = sh([PY, demo], cwd=clean, env=env, timeout=600)
+    shutil.copy(demo, os.path.join(clean, "demo.py"))     # demos may put their own directory first on sys.path
+    rc0, out0 = sh([PY, "demo.py"], cwd=clean, env=env, timeout=600)
     shutil.rmtree(clean, ignore_errors=True)
     d = scratch_with_patch(patch)
     env["PYTHONPATH"] = d
-    rc1, out1 = sh([PY, demo], cwd=d, env=env, timeout=600)
+    shutil.copy(demo, os.path.join(d, "demo.py"))
+    rc1, out1 = sh([PY, "demo.py"], cwd=d, env=env, timeout=600)
     shutil.rmtree(d, ignore_errors=True)
     print(f"demo without patch: rc={rc0}  {out0.strip().splitlines()[-1][:200] if out0.strip() else ''}")
     print(f"demo with patch:    rc={rc1}  {out1.strip().splitlines()[-1][:200] if out1.strip() else ''}")
